@@ -96,7 +96,9 @@ def evalExpr (T : Tables K) : Expr → Except Err (Val K)
         | .arr .. => .ok (.atom (.pname x))
         | _ => .error .type
       else .ok v
-  | .idx x i => do
+  | .idx x pos i => do
+    -- (repaired) an undefined array name is reported like any other undefined name
+    if (dictGet T.vars x).isNone then throw (.syntax .undefined x pos)
     let iv ← evalExpr T i
     match dictGet T.vars x with
     | none => .error .key
@@ -143,7 +145,7 @@ def Expr.pars : Expr → List String
   | .num _ _ => []
   | .var _ _ => []
   | .reg _ => []
-  | .idx _ i => i.pars
+  | .idx _ _ i => i.pars
   | .par p => [p]
   | .brk e => e.pars
   | .pos e => e.pars
